@@ -68,8 +68,11 @@ def write_config(A, fname, section, syntax, rng):
         elif A.get("self_glob"):
             ents.append(["*.cfg", ["rel {version}"]])
         for path, pats in ents:
-            lines.append("%s =" % path)
+            first_on_key_line = rng.random() < 0.3          # `file = first pattern` with the further patterns on indented lines below it
+            lines.append("%s = %s" % (path, pats[0]) if first_on_key_line else "%s =" % path)
             for k, p in enumerate(pats):
+                if k == 0 and first_on_key_line:
+                    continue
                 if k > 0 and rng.random() < 0.25:
                     lines.append("")                      # a blank line between two patterns of one file: layout, not meaning
                 lines.append("    " + p)
